@@ -98,6 +98,27 @@ func TestC01(t *testing.T) {
 	})
 }
 
+// TestC01Teardown covers the deletion clause of C01 ("... or deletes it only if ..."): teardown histories in which third parties
+// change the ownership of objects, also between PKO's read of an object and its delete, judged by the delete rules of C05
+// (preconditions pinned to the inspected version, which must show the owner as controller; changed objects survive).
+func TestC01Teardown(t *testing.T) {
+	st := NewStats("C01", "teardown", "scenario = teardown (delete, orphan delete, archive) of 1-2 ObjectSets whose objects third parties re-own, re-create, edit or strip of owners, including between PKO's read of an object and its delete of it; oracle = every delete carries uid+resourceVersion of the inspected version, that version shows the owner as controller, an object changed in between survives; non-trivial = an object changed between PKO's read and its write")
+	opts := SetGenOpts{AllowClass: true, Classes: []string{engine.ClassDefault, engine.ClassDefault, engine.ClassRemote}, AllowCluster: true, PoolSize: 4, MaxObjs: 3, MaxPhases: 2}
+	mk := func(sc *Scenario) *Runner { return NewRunner(sc, &C05Monitor{}) }
+	CheckOrReplay(t, st, func(data []byte) (any, error) {
+		v, err := ReplayScenario(data, mk)
+		return v, remapProp(err, "C01")
+	}, func(rt *rapid.T) {
+		sc := genTeardownWorld(rt, "C01", opts, true)
+		sc.Part = "teardown"
+		r := mk(sc)
+		err := remapProp(r.Run(), "C01")
+		st.Count("passes", int64(len(r.W.Passes)))
+		st.Case(sc, r.Labels["c05-changed-between-read-and-delete"] || r.Labels["c05-changed-between-read-and-patch"], r.LabelList()...)
+		st.Report(rt, sc, err)
+	})
+}
+
 // genPoolIdx draws a pool index among the first n native identities and the identities reserved for
 // the annotation strategy.
 func genPoolIdx(t *rapid.T, n int) int {
